@@ -63,13 +63,36 @@ pub proof fn lemma_prod_suffix(a: Seq<u64>, b: Seq<u64>, i: int)
 {
     if i < a.len() { lemma_prod_suffix(a, b, i + 1); }
 }
-/// shape of the partial-chunk subset: `shape[0] = 1; shape[1] = len` on a copy of the array shape
+// shape of the partial-chunk subset: `shape[0] = 1; shape[1] = len` (in either order) on a copy of
+// the array shape.  Two general facts, used through `broadcast use group_prod`.
+pub broadcast proof fn lemma_prod_unfold2(s: Seq<u64>)
+    requires s.len() >= 2,
+    ensures #[trigger] prod_from(s, 0) == s[0] as int * (s[1] as int * prod_from(s, 2)),
+{
+    assert(prod_from(s, 1) == s[1] as int * prod_from(s, 2));
+    assert(prod_from(s, 0) == s[0] as int * prod_from(s, 1));
+}
+pub broadcast proof fn lemma_prod_update_below(base: Seq<u64>, i: int, x: u64, j: int)
+    requires 0 <= i < j, i < base.len(),
+    ensures #[trigger] prod_from(base.update(i, x), j) == prod_from(base, j),
+{
+    lemma_prod_suffix(base.update(i, x), base, j);
+}
+/// the two orders in which `shape[0] = a; shape[1] = b` can be written, in one step
 pub broadcast proof fn lemma_prod_upd01(base: Seq<u64>, a: u64, b: u64)
     requires base.len() >= 2,
     ensures #[trigger] prod_from(base.update(0, a).update(1, b), 0) == a as int * (b as int * prod_from(base, 2)),
 {
     let s = base.update(0, a).update(1, b);
     lemma_prod_suffix(s, base, 2);
-    assert(prod_from(s, 1) == s[1] as int * prod_from(s, 2));
-    assert(prod_from(s, 0) == s[0] as int * prod_from(s, 1));
+    lemma_prod_unfold2(s);
 }
+pub broadcast proof fn lemma_prod_upd10(base: Seq<u64>, a: u64, b: u64)
+    requires base.len() >= 2,
+    ensures #[trigger] prod_from(base.update(1, b).update(0, a), 0) == a as int * (b as int * prod_from(base, 2)),
+{
+    let s = base.update(1, b).update(0, a);
+    lemma_prod_suffix(s, base, 2);
+    lemma_prod_unfold2(s);
+}
+pub broadcast group group_prod { lemma_prod_unfold2, lemma_prod_update_below, lemma_prod_upd01, lemma_prod_upd10 }
